@@ -8,6 +8,13 @@ import (
 )
 
 func TestMain(m *testing.M) {
+	if f := os.Getenv("VERIF_SELFTEST_DIE_ONCE"); f != "" {
+		// self-test of the driver's handling of a worker that dies without a verdict
+		if _, err := os.Stat(f); err != nil {
+			_ = os.WriteFile(f, []byte("died"), 0o644)
+			os.Exit(2)
+		}
+	}
 	code := m.Run()
 	stats.write()
 	os.Exit(code)
